@@ -24,11 +24,16 @@ DetLog2OK(det, logged) == LET k == Log2Of(det) IN k = 999 \/ (logged[2] >= 0 /\ 
 NearVals(a, b) == a[2] >= 0 /\ b[2] >= 0 /\ LET x == To16(a) - To16(b) IN (IF x < 0 THEN -x ELSE x) <= 16
 \* badly scaled input: the matrix times 2^+-400 factorizes as well, and its log-determinant moves by exactly n*400*ln 2
 \* (the harness subtracts that), although the determinant itself is then outside the floating-point range for n >= 3
-ScaledOK(e) == \A i \in 1..Len(e.scaled) : e.scaled[i].rc = 0 /\ NearVals(e.scaled[i].l2, e.lnd)
+\* third variant: scaled to the bottom of the normal range (entries below the pivots become subnormal); a pivot that is
+\* itself subnormal may be reported as failure - but a reported success must give the same solution and log-determinant
+ScaledOK(e) == \A i \in 1..Len(e.scaled) :
+                 /\ (i <= 2 => e.scaled[i].rc = 0)
+                 /\ (e.scaled[i].rc = 0 => NearVals(e.scaled[i].l2, e.lnd) /\ e.scaled[i].x = e.x)
 
 PluOK(e) ==
-  LET n == e.n  A == Rs(e.A)  L == Rs(e.L)  U == Rs(e.U)  inv == Rs(e.inv)  b == Rs(e.b)  x == Rs(e.x)  det == RDy(e.det)  dA == DetR(A, n) IN
-  /\ Exact(e.L) /\ Exact(e.U) /\ Exact(e.x) /\ Exact(e.inv) /\ Exact(e.inv2) /\ Exact(e.P) /\ Exact(e.PT) /\ e.det[2] >= 0
+  LET n == e.n  A == Rs(e.A)  L == Rs(e.L)  U == Rs(e.U)  inv == Rs(e.inv)  b == Rs(e.b)  x == Rs(e.x)  det == RDy(e.det)  dA == IF n <= 5 THEN DetR(A, n) ELSE RMul(RQ(e.sign), DiagProd(U, n, n)) IN
+  \* orders above 5 (pattern instances): the Laplace expansion is replaced by sign * prod(U_ii) of the recorded factor
+  /\ Exact(e.L) /\ Exact(e.U) /\ Exact(e.x) /\ (n <= 5 => Exact(e.inv) /\ Exact(e.inv2)) /\ Exact(e.P) /\ Exact(e.PT) /\ e.det[2] >= 0
   /\ IsPerm(e.p, n) /\ e.sign = Parity(e.p, n)                                  \* a true permutation whose parity is the sign
   /\ UnitLower(L, n) /\ Upper(U, n)
   /\ \A k \in 1..Len(L) : RLe(RAbs(L[k]), RQ(1))                               \* multipliers bounded by one
@@ -36,22 +41,24 @@ PluOK(e) ==
   /\ EqM(Rs(e.P), MatR(n, LAMBDA r, c : IF c = e.p[r] + 1 THEN RQ(1) ELSE RQ(0))) /\ EqM(Rs(e.PT), TrR(Rs(e.P), n))
   /\ EqV(Rs(e.Pb), [r \in 1..n |-> b[e.p[r] + 1]])
   /\ EqV(MulVec(A, x, n), b)                                                    \* solve
-  /\ EqM(MulR(A, inv, n), IdR(n)) /\ EqM(Rs(e.inv2), inv)                       \* inverse, both variants agree
+  /\ (n <= 5 => EqM(MulR(A, inv, n), IdR(n))) /\ e.inv2 = e.inv                 \* inverse (exact check for the small orders), both variants agree
   /\ REq(det, dA) /\ REq(det, RMul(RQ(e.sign), DiagProd(U, n, n)))              \* determinant = sign * prod(U_ii) = Leibniz
   /\ e.sgndet = RSign(dA) /\ DetLog2OK(dA, e.lnd)
 LdlOK(e) ==
-  LET n == e.n  A == Rs(e.A)  L == Rs(e.L)  d == Rs(e.D)  inv == Rs(e.inv)  b == Rs(e.b)  x == Rs(e.x)  det == RDy(e.det)  dA == DetR(A, n)
-      Dm == MatR(n, LAMBDA r, c : IF r = c THEN d[r] ELSE RQ(0)) IN
-  /\ Exact(e.L) /\ Exact(e.D) /\ Exact(e.x) /\ Exact(e.inv) /\ Exact(e.inv2) /\ e.det[2] >= 0
+  LET n == e.n  A == Rs(e.A)  L == Rs(e.L)  d == Rs(e.D)  inv == Rs(e.inv)  b == Rs(e.b)  x == Rs(e.x)  det == RDy(e.det)
+      Dm == MatR(n, LAMBDA r, c : IF r = c THEN d[r] ELSE RQ(0))
+      dA == IF n <= 5 THEN DetR(A, n) ELSE DiagProd(Dm, n, n) IN
+  /\ Exact(e.L) /\ Exact(e.D) /\ Exact(e.x) /\ (n <= 5 => Exact(e.inv) /\ Exact(e.inv2)) /\ e.det[2] >= 0
   /\ UnitLower(L, n) /\ EqM(MulR(MulR(L, Dm, n), TrR(L, n), n), A)
-  /\ EqV(MulVec(A, x, n), b) /\ EqM(MulR(A, inv, n), IdR(n)) /\ EqM(Rs(e.inv2), inv)
+  /\ EqV(MulVec(A, x, n), b) /\ (n <= 5 => EqM(MulR(A, inv, n), IdR(n))) /\ e.inv2 = e.inv
   /\ REq(det, dA) /\ e.sgndet = RSign(dA) /\ DetLog2OK(dA, e.lnd)
 LltOK(e) ==
-  LET n == e.n  A == Rs(e.A)  L == Rs(e.L)  inv == Rs(e.inv)  b == Rs(e.b)  x == Rs(e.x)  det == RDy(e.det)  dA == DetR(A, n) IN
-  /\ Exact(e.L) /\ Exact(e.x) /\ Exact(e.inv) /\ Exact(e.inv2) /\ e.det[2] >= 0
+  LET n == e.n  A == Rs(e.A)  L == Rs(e.L)  inv == Rs(e.inv)  b == Rs(e.b)  x == Rs(e.x)  det == RDy(e.det)
+      dA == IF n <= 5 THEN DetR(A, n) ELSE RMul(DiagProd(L, n, n), DiagProd(L, n, n)) IN
+  /\ Exact(e.L) /\ Exact(e.x) /\ (n <= 5 => Exact(e.inv) /\ Exact(e.inv2)) /\ e.det[2] >= 0
   /\ Lower(L, n) /\ \A k \in 1..n : E(L, n, k, k)[1] > 0                        \* strictly positive diagonal
   /\ EqM(MulR(L, TrR(L, n), n), A)
-  /\ EqV(MulVec(A, x, n), b) /\ EqM(MulR(A, inv, n), IdR(n)) /\ EqM(Rs(e.inv2), inv)
+  /\ EqV(MulVec(A, x, n), b) /\ (n <= 5 => EqM(MulR(A, inv, n), IdR(n))) /\ e.inv2 = e.inv
   /\ REq(det, dA) /\ DetLog2OK(dA, e.lnd)
 
 Accept(e) ==
